@@ -277,6 +277,12 @@ func (f *Frame) decodeIP4(p []byte) {
 	if ip.TTL == 0 {
 		f.errf("ipv4: ttl 0")
 	}
+	if ip.FlagsFrag&0x3fff != 0 { // MF set or a non-zero offset: not a complete datagram
+		f.errf("ipv4: the datagram is a fragment (more-fragments=%v, offset=%d bytes)", ip.FlagsFrag&0x2000 != 0, int(ip.FlagsFrag&0x1fff)*8)
+	}
+	if ip.FlagsFrag&0x8000 != 0 {
+		f.errf("ipv4: reserved flag bit set")
+	}
 	ip.Payload = p[ip.IHL:ip.TotalLen]
 	switch ip.Proto {
 	case 17:
